@@ -217,8 +217,13 @@ impl tokio::io::AsyncWrite for Conn {
 
 // ------------------------------------------------------------------ run
 
-fn make_stream(ctl: Shared, script: Vec<u8>, msgs: Vec<String>, from_queue: bool, decoy: Option<u8>) -> DataStream {
+fn make_stream(ctl: Shared, script: Vec<u8>, msgs: Vec<String>, from_queue: bool, decoy: Option<u8>, tail: Option<String>) -> DataStream {
     use ohkami::util::StreamExt;
+    if let Some(closing) = tail {
+        // the handler's stream followed by a second stream of one closing message, through the adapter `StreamExt::chain`
+        return DataStream::from(ohkami_lib::stream::queue(move |q| Producer { ctl, handle: Handle::Raw(q), script, ip: 0, msgs, next_msg: 0, decoy: None, last_decoy: false })
+            .chain(ohkami_lib::stream::once(closing)))
+    }
     if let Some(d) = decoy {
         // the handler's stream behind the adapter `StreamExt::filter`: the predicate rejects the decoys (and tells the log)
         let c2 = ctl.clone();
@@ -252,8 +257,10 @@ fn err_class(e: &str) -> String {
 
 pub fn run(scn: &Value) -> Value {
     let seed = scn["seed"].as_u64().unwrap_or(0);
-    let script: Vec<u8> = arr(&scn["script"]).iter().map(|x| if s(x) == "P" { b'P' } else { b'Y' }).collect();
-    let npush = script.iter().filter(|b| **b == b'P').count();
+    // (a script that ends with "T": the stream is chained with a second stream of one closing message, the last of `msgs`)
+    let has_tail = arr(&scn["script"]).last().map(|x| s(x) == "T").unwrap_or(false);
+    let script: Vec<u8> = arr(&scn["script"]).iter().filter(|x| s(x) != "T").map(|x| if s(x) == "P" { b'P' } else { b'Y' }).collect();
+    let npush = script.iter().filter(|b| **b == b'P').count() + has_tail as usize;
     let mut msgs = vec![]; let mut table: Vec<(String, String)> = vec![];
     for w in ["data", "event", "id", "retry"] { table.push((w.to_string(), format!("={w}"))) }
     for m in arr(&scn["msgs"]) {
@@ -274,9 +281,10 @@ pub fn run(scn: &Value) -> Value {
     let delays: Vec<i64> = arr(&scn["pol"]["delay"]).iter().map(util::i).collect();
     let spurs: Vec<i64> = arr(&scn["pol"]["spur"]).iter().map(util::i).collect();
     let wmode = util::i(&scn["wmode"]);
-    let via = match s(&scn["via"]) { "router" => "router", "from" => "from", "router-from" => "router-from", "filter" => "filter", "router-filter" => "router-filter", _ => "direct" };
+    let via = match s(&scn["via"]) { "router" => "router", "from" => "from", "router-from" => "router-from", "filter" => "filter", "router-filter" => "router-filter", "chain" => "chain", "router-chain" => "router-chain", _ => "direct" };
     let from_queue = via.ends_with("from");
     let decoy: Option<u8> = if via.ends_with("filter") { Some((seed % 3) as u8) } else { None };
+    let tail: Option<String> = if has_tail { msgs.pop() } else { None };
     if s(&scn["via"]) == "session" { return run_session(&msgs, &table, scn["gap_ms"].as_u64().unwrap_or(50)) }
 
     let flag = Arc::new(Flag(AtomicBool::new(false)));
@@ -288,8 +296,8 @@ pub fn run(scn: &Value) -> Value {
 
     // the response, through the public API
     let res: Response = if via.starts_with("router") {
-        let (c2, sc2, m2) = (ctl.clone(), script.clone(), msgs.clone());
-        let o = Ohkami::new(("/sse".GET(move || { let (c, sc, m) = (c2.clone(), sc2.clone(), m2.clone()); async move { make_stream(c, sc, m, from_queue, decoy) } }),));
+        let (c2, sc2, m2, tl2) = (ctl.clone(), script.clone(), msgs.clone(), tail.clone());
+        let o = Ohkami::new(("/sse".GET(move || { let (c, sc, m, tl) = (c2.clone(), sc2.clone(), m2.clone(), tl2.clone()); async move { make_stream(c, sc, m, from_queue, decoy, tl) } }),));
         let router = v::finalize(o);
         util::block_on(async {
             let mut req = v::VRequest::new();
@@ -297,7 +305,7 @@ pub fn run(scn: &Value) -> Value {
             match req.read(&mut rd).await { Ok(Some(())) => req.handle(&router).await, Ok(None) => Response::new(Status::Gone), Err(e) => e }
         })
     } else {
-        let mut r = make_stream(ctl.clone(), script.clone(), msgs.clone(), from_queue, decoy).into_response();
+        let mut r = make_stream(ctl.clone(), script.clone(), msgs.clone(), from_queue, decoy, tail.clone()).into_response();
         v::complete(&mut r);
         r
     };
@@ -425,7 +433,10 @@ pub fn gen(rng: &mut Rng, i: usize) -> Value {
         if rng.chance(3, 5) { for _ in 0..rng.range(1, 5) { if script.len() < steps { script.push("P") } } }
         else { for _ in 0..rng.range(1, 3) { if script.len() < steps { script.push("Y") } } }
     }
-    let npush = script.iter().filter(|x| **x == "P").count();
+    // one scenario in six: the stream is chained with a second stream of one closing message (script ends with "T", one more message)
+    let chain = rng.chance(1, 6);
+    if chain { script.push("T") }
+    let npush = script.iter().filter(|x| **x == "P" || **x == "T").count();
     let mut long_used = false;
     let mut msgs = vec![];
     for _ in 0..npush {
@@ -447,5 +458,5 @@ pub fn gen(rng: &mut Rng, i: usize) -> Value {
     let delay: Vec<i64> = (0..ny).map(|_| *rng.pick(&[-1i64, -1, 0, 0, 1, 2, 3, 5])).collect();
     let spur: Vec<i64> = (0..ny).map(|_| *rng.pick(&[0i64, 0, 0, 1, 2])).collect();
     json!({"id": i, "script": script, "msgs": msgs, "hist": [], "seed": rng.below(1 << 30) as i64,
-           "pol": {"delay": delay, "spur": spur}, "wmode": *rng.pick(&[0i64, 0, 1, 2]), "via": *rng.pick(&["direct", "direct", "router", "from", "router-from", "filter", "router-filter"])})
+           "pol": {"delay": delay, "spur": spur}, "wmode": *rng.pick(&[0i64, 0, 1, 2]), "via": if chain { *rng.pick(&["chain", "router-chain"]) } else { *rng.pick(&["direct", "direct", "router", "from", "router-from", "filter", "router-filter"]) }})
 }
